@@ -819,6 +819,9 @@ class SingleInstanceDataset(BaseDataset):
             use_existing_chunks=use_existing_chunks,
         )
         self.confmap_head_config = confmap_head_config
+        # single-instance model: no NaN padding up to the labels' maximum number of instances
+        # (as `single_instance_data_chunks`, which calls `process_lf` with `max_instances=1`)
+        self.max_instances = 1
         if not self.use_existing_chunks:
             rank = get_dist_rank()
             if (
